@@ -438,14 +438,51 @@ class OsFacade:
         return 4242
 
 
+class TextHandle:
+    """open(path, 'w' / 'r', encoding=..., newline=None): text layer over a binary handle, POSIX semantics
+    (writing translates nothing, reading applies universal newlines unless newline='')."""
+
+    def __init__(self, raw, encoding, newline):
+        self.raw = raw
+        self.encoding = encoding or "utf-8"
+        self.newline = newline
+
+    def __enter__(self):
+        return self
+
+    def __exit__(self, *exc):
+        self.close()
+        return False
+
+    def write(self, s):
+        if not isinstance(s, str):
+            raise TypeError("write() argument must be str")
+        self.raw.write(s.encode(self.encoding))
+        return len(s)
+
+    def read(self, n=-1):
+        s = self.raw.read().decode(self.encoding)
+        if self.newline is None:
+            s = s.replace("\r\n", "\n").replace("\r", "\n")
+        return s
+
+    def flush(self):
+        self.raw.flush()
+
+    def close(self):
+        self.raw.close()
+
+
 def make_open(fs):
-    def _open(path, mode="r", *a, **kw):
+    def _open(path, mode="r", buffering=-1, encoding=None, errors=None, newline=None, *a, **kw):
         path = str(path)
-        if "b" not in mode:
-            raise ValueError("model: only binary modes are used by dds")
         if "w" in mode or "x" in mode:
-            return fs.do("open_w", path)
-        return fs.do("open_r", path)
+            raw = fs.do("open_w", path)
+        else:
+            raw = fs.do("open_r", path)
+        if "b" in mode:
+            return raw
+        return TextHandle(raw, encoding, newline)
 
     return _open
 
